@@ -771,6 +771,9 @@ func (fv *FuncVC) instr(ins ssa.Instruction) {
 	case *ssa.MakeInterface:
 		box, _, _ := e.boxFns(x.X.Type())
 		fv.defReg(x, app(box, fv.val(x.X)))
+		// boxing adds no reference: everything the interface value refers to exists already
+		e.decl("fn:iface_maxid", "(declare-fun iface_maxid (Iface) Int)")
+		fv.assume(app("<", app("iface_maxid", fv.val(x)), fv.curAlloc()))
 	case *ssa.TypeAssert:
 		fv.typeAssert(x)
 	case *ssa.Slice:
@@ -1305,6 +1308,7 @@ func (fv *FuncVC) doReturn(x *ssa.Return) {
 		return
 	}
 	env := fv.specEnv(fv.st)
+	env.postAlloc = fv.curAlloc()
 	fv.bindLocals(env, x.Block(), fv.st)
 	if len(fv.c.Results) > len(x.Results) {
 		specFail("%s: contract names %d results, function returns %d", fv.name, len(fv.c.Results), len(x.Results))
